@@ -443,3 +443,48 @@ func init() {
 		absSigs:    map[string]string{"isPrint": "Int → Bool", "isSpace": "Int → Bool"},
 	})
 }
+
+// The edit operations of modfile (read.go tree operations, rule.go typed operations) on the pointer graph as a heap.
+func init() {
+	tree := []string{"commentsAdd", "stringsAdd", "FileSyntax.addLine", "FileSyntax.updateLine", "Line.markRemoved", "FileSyntax.Cleanup"}
+	ops := []string{"MustQuote", "AutoQuote", "checkCanonicalVersion", "lineLess", "lineExcludeLess", "lineRetractLess", "isIndirect", "Require.markRemoved", "Require.setVersion", "Require.setIndirect",
+		"File.AddModuleStmt", "File.AddGoStmt", "File.DropGoStmt", "File.DropToolchainStmt", "File.AddToolchainStmt", "File.AddGodebug", "File.addNewGodebug", "File.DropGodebug",
+		"File.AddRequire", "File.AddNewRequire", "File.DropRequire", "File.AddExclude", "File.DropExclude", "File.AddReplace", "addReplace", "File.DropReplace",
+		"File.AddRetract", "File.DropRetract", "File.SortBlocks", "File.removeDups", "File.AddTool", "File.DropTool", "File.Cleanup",
+		"File.SetRequire", "File.SetRequireSeparateIndirect"}
+	wf := map[string]string{}
+	for _, n := range append(append([]string{"parseDirectiveComment"}, tree[2:]...), ops[3:]...) {
+		wf[n] = "Heap"
+	}
+	g2lUnits = append(g2lUnits, &g2lUnit{
+		out: "FnEdit", ns: "Edit", pkgDir: "modfile",
+		imports: []string{"ModVerif.Basic.GoRtUtf8", "ModVerif.Basic.GoRtStrings", "ModVerif.Basic.GoRtHeap", "ModVerif.Basic.GoRtZipIO", "ModVerif.Basic.GoRtEdit", "ModVerif.Generated.FnSemver", "ModVerif.Generated.FnModule"},
+		structNames: []string{"Position", "Comment", "Comments", "CommentBlock", "LParen", "RParen", "Line", "LineBlock", "Expr", "FileSyntax",
+			"VersionInterval", "Module", "Go", "Toolchain", "Godebug", "Require", "Exclude", "Replace", "Retract", "Tool", "File"},
+		sumTypes:  map[string][]string{"Expr": {"CommentBlock", "LParen", "RParen", "Line", "LineBlock", "FileSyntax"}},
+		sumNil:    map[string]bool{"Expr": true},
+		heapTypes: map[string]string{"CommentBlock": "cbs", "Line": "lines", "LineBlock": "blocks", "FileSyntax": "files", "Module": "modules", "Go": "gos", "Toolchain": "toolchains",
+			"Godebug": "godebugs", "Require": "requires", "Exclude": "excludes", "Replace": "replaces", "Retract": "retracts", "Tool": "tools", "File": "mods"},
+		interior:     map[string]string{"LParen": "LineBlock.LParen", "RParen": "LineBlock.RParen"},
+		ownerPtr:     map[string]string{"Comments": "Expr"},
+		ownerCalls:   map[string]bool{"Comment": true},
+		foreignTypes: map[string]string{"module.Version": "ModVersion"},
+		fns:          append(append([]string{}, tree...), ops...),
+		worldFns:     wf,
+		inout:        map[string]string{"addReplace": "replace"},
+		inlineFns:    map[string]bool{"removeDups": true},
+		exclude:      map[string]bool{"removeDups": true},
+		localTypes:   map[string]string{"elem": "ReqElem"},
+		preamble:     "/-- `type elem struct { version string; indirect bool }` (local to SetRequire) -/\nstructure ReqElem where\n  version : Bytes\n  indirect : Bool\n  deriving DecidableEq, Repr, Inhabited\n\n",
+		externs: map[string]string{"semver.Compare": "ModVerif.Generated.Semver.Compare", "semver.Major": "ModVerif.Generated.Semver.Major",
+			"module.SplitPathVersion": "ModVerif.Generated.Module.SplitPathVersion", "module.CanonicalVersion": "ModVerif.Generated.Module.CanonicalVersion",
+			"module.PathMajorPrefix": "ModVerif.Generated.Module.PathMajorPrefix", "module.CheckPathMajor": "ModVerif.Generated.Module.CheckPathMajor"},
+		externFx: map[string]bool{"semver.Compare": true, "semver.Major": true, "module.SplitPathVersion": true, "module.CanonicalVersion": true,
+			"module.PathMajorPrefix": true, "module.CheckPathMajor": true},
+		externFue: map[string]bool{"semver.Compare": true, "semver.Major": true, "module.SplitPathVersion": true, "module.CanonicalVersion": true,
+			"module.PathMajorPrefix": true, "module.CheckPathMajor": true},
+		absCalls:     map[string]string{"GoVersionRE.MatchString": "goVersionRE", "ToolchainRE.MatchString": "toolchainRE"},
+		absFuncs:     map[string]string{"unicode.IsPrint": "isPrint", "unicode.IsSpace": "isSpace", "strconv.Quote": "quote"},
+		absSigs:      map[string]string{"isPrint": "Int → Bool", "isSpace": "Int → Bool", "quote": "Bytes → Bytes", "goVersionRE": "Bytes → Bool", "toolchainRE": "Bytes → Bool"},
+	})
+}
